@@ -350,7 +350,8 @@ def dea_table(ctx, ex):
     """All guards off: Dea values are entries of the exact epsilon table (through shifts)."""
     rep = ctx.rep
     where = where_cls(ex, 'Dea', '_dea')
-    for limexp, nterms in ((3, 7), (5, 6)) if ctx.tier == 'quick' else ((3, 9), (5, 7)):
+    # (an even limexp stands for the next odd table size, as documented by the limexp setter)
+    for limexp, nterms in ((3, 7), (5, 6), (4, 6)) if ctx.tier == 'quick' else ((3, 9), (5, 7), (4, 7), (2, 5)):
         for prefer_new in ((True, False) if limexp == 3 else (True,)):
             def oracle(interp, node, fr, value, prefer_new=prefer_new):
                 return guards_off(ast.unparse(node), prefer_new, value)
@@ -372,7 +373,7 @@ def dea_table(ctx, ex):
                     if not is_floored(err):
                         floor_problems.append('term %d: error estimate %s' % (n, repr(err)[:80]))
                     # the window of terms the table can hold
-                    width = min(n + 1, limexp)
+                    width = min(n + 1, 2 * (limexp // 2) + 1)
                     cands = []
                     for k in range(2, width, 2):
                         win = s[n - k:n + 1]            # the last k+1 terms determine eps_k
@@ -381,6 +382,12 @@ def dea_table(ctx, ex):
                     if not any(same(val, c) for c in cands):
                         problems.append('term %d: value is not an even-order entry of the epsilon table of the last %d terms'
                                         % (n, width))
+                        break
+                    if prefer_new and not same(val, cands[0]):
+                        # every "is the new element better" test answered yes: the value is the entry of highest order the
+                        # table can hold (what EpsAlg returns for these terms)
+                        problems.append('term %d: not the entry of highest even order (%d) of the last %d terms'
+                                        % (n, 2 * ((width - 1) // 2), width))
                         break
             except InterpRaise as exc:
                 problems.append('raises %s: %s' % (exc.exc_name, exc.msg[:80]))
